@@ -11,6 +11,7 @@ CHECK = dict(
         "the suffixes given to the Matcher are not suffixes of one another (as in cmd: .sb.dns.adguard.com and .pc.dns.adguard.com)",
         "the concurrent part samples real goroutine schedules: generation is seeded, the interleavings are not; it is bounded by iteration counts and no timing decides a verdict",
         "a legacy eight-character label whose ignored tail is not hexadecimal may be refused or served (the statement does not say)",
+        "cmd unit: nothing can be downloaded (closed loopback port), so builder.initHashPrefixFilters / initFilterStorage end right after their constructors and the refresh workers are never created; list contents are put into the builder's hash storages directly",
     ],
     units=[
         dict(name="hashprefix", dir=F + "hashprefix", src="C11/hashprefix", runs=[
@@ -22,6 +23,9 @@ CHECK = dict(
         ]),
         dict(name="preservice", dir="internal/dnssvc/internal/preservice", src="C11/preservice", runs=[
             dict(name="txt", run="^TestVerifC11Preservice$", quick=6000, thorough=300000, shards_thorough=4),
+        ]),
+        dict(name="cmd", dir="internal/cmd", src="C11/cmd", runs=[
+            dict(name="hashprefix-config", run="^TestVerifC11CmdFilters$", quick=300, thorough=12000, shards_quick=2, shards_thorough=6),
         ]),
     ],
 )
